@@ -168,7 +168,7 @@ Local ==
          visB == Visible(E, R, Ev.cont)
          visA == IF ok THEN Visible(E2, R2, Ev.cont) ELSE <<>>
          seqOk ==
-           CASE call.a \in {"ins", "emb"} ->
+           CASE call.a \in {"ins", "emb", "insa"} ->
                   /\ Len(visA) >= Len(visB)
                   /\ SubSeq(visA, 1, call.i) = SubSeq(visB, 1, call.i)
                   /\ SubSeq(visA, call.i + 1 + (Len(visA) - Len(visB)), Len(visA)) = SubSeq(visB, call.i + 1, Len(visB))
@@ -190,6 +190,7 @@ Local ==
          RA == RenderOf(E2, R2, Ev.cont)
          richOk ==
            CASE call.a \in {"ins", "emb"} -> C03_RichInsert(RB, RA, call.i, newIds)
+             [] call.a = "insa" -> C03_RichInsertWith(RB, RA, call.i, newIds, call.key, call.v)
              [] call.a = "del" -> C03_RichDelete(RB, RA, call.i, call.n)
              [] call.a = "fmt" -> C03_RichFormat(RB, RA, call.i, call.n, call.key, call.v)
              [] OTHER -> TRUE
@@ -232,7 +233,8 @@ ApplyTo(r, payload, emit, outcome, wire, o, nev, hasfol, fol, extra(_, _, _)) ==
       R2 == ObsRep(o, R.dlv \cup InsIds(us), ddel2 \cup CL)
       \* implementation-level prediction (drift only): the transcription of TransactionMut::cleanup_fmt in Rich.tla, run on
       \* the recorded lists with the tombstones / insertions / deletions the transaction had made before the clean-up
-      PredCL == UNION {CleanupFmt(E2, R2.lst[c], R2.dead \ CL, InsIds(emit.ins), Ids(emit.del) \ CL) : c \in MarkedConts(E2, R2)}
+      \* (the units it integrated are Have(R2) \ Have(R): with gaps the update event re-emits blocks integrated earlier)
+      PredCL == UNION {CleanupFmt(E2, R2.lst[c], R2.dead \ CL, Have(R2) \ Have(R), Ids(emit.del) \ CL) : c \in MarkedConts(E2, R2)}
       ok == WellFormed(E2, o)
       changed == Have(R2) # Have(R) \/ (R2.dead \cup R2.gone) # (R.dead \cup R.gone)
       chk == IF ~ok THEN << <<"C04_Placed", FALSE>> >>
